@@ -1,7 +1,7 @@
 (* C14 — Lower-resolution label levels match the documented down-sampling.
    Only statements, each closed by [exact] of a lemma proved in Proofs/, and Print Assumptions. *)
 From DV Require Import Base.Prelude Base.Int Base.BitPack Model.Block Model.Downres
-     Model.BlockOps Proofs.BitPack Proofs.Block Proofs.BlockOps Proofs.Downres Proofs.DownresBlock Gen.Consts.
+     Model.BlockOps Proofs.BitPack Proofs.Block Proofs.BlockOps Proofs.Downres Proofs.DownresBlock Proofs.DownresLocks Gen.Consts Gen.DownresLocks.
 From Coq Require Import Permutation.
 Local Open Scope N_scope.
 
@@ -100,6 +100,17 @@ Theorem C14_block_downres : forall tbl b octs b' old,
                 dr_voxel (start_of old octs (nx * ny * nz)) (arrays_of octs 0) nx ny nz x y z v.
 Proof. exact downres_fixed_spec. Qed.
 Print Assumptions C14_block_downres.
+
+(* The pyramid theorem is about ONE update at a time.  In the code every function of
+   datatype/labelmap that runs downresMut.Execute() (PutLabels, storeBlocks, SplitLabels,
+   SplitSupervoxel) holds Data.voxelMu over its whole body, so two voxel-level mutations never
+   rewrite the same stored lower-resolution block concurrently.  Gen/DownresLocks.v is regenerated
+   from the source on every run (harness/cmd/gen/gen_c14.go: Lock(); defer Unlock() as consecutive
+   top-level statements before the Execute call and no other mention of voxelMu). *)
+Theorem C14_updates_serialised :
+  g_downres_execute_locked <> [] /\ forallb (fun b => b) g_downres_execute_locked = true.
+Proof. exact updates_serialised. Qed.
+Print Assumptions C14_updates_serialised.
 
 (* Non-vacuity: a concrete pyramid (constant levels) satisfies Pyr. *)
 Example C14_pyr_inhabited : Pyr (fun _ _ _ _ => 3) 5.
